@@ -672,7 +672,7 @@ func run(cfg *Config, opt core.Options, res *core.Result) *sim {
 				blk = nil
 				err = nil
 			}
-			if err != nil && strings.Contains(err.Error(), "no active validators") {
+			if err != nil && (strings.Contains(err.Error(), "no active validators") || w.activeSetRunsOut(parent, slot)) {
 				// every validator exited or was ejected: the chain (of the specification as well) ends here
 				res.Stat("runs_ended_without_active_validators", 1)
 				break
@@ -754,7 +754,7 @@ func run(cfg *Config, opt core.Options, res *core.Result) *sim {
 		}
 		// attestations for this slot on the head
 		hb, err := w.advance(w.head, slot)
-		if err != nil && strings.Contains(err.Error(), "no active validators") {
+		if err != nil && (strings.Contains(err.Error(), "no active validators") || w.activeSetRunsOut(w.head, slot)) {
 			res.Stat("runs_ended_without_active_validators", 1)
 			break
 		}
@@ -783,6 +783,32 @@ func run(cfg *Config, opt core.Options, res *core.Result) *sim {
 		res.Nontrivial = true
 	}
 	return s
+}
+
+// activeSetRunsOut: by the harness's own count, no validator is active in the epoch of `slot` or the
+// one after it on b's chain: committees, proposers and sync committees cannot be computed (by the
+// specification either) and the chain ends.
+func (w *World) activeSetRunsOut(b *blockRec, slot uint64) bool {
+	vals, err := b.post.st.Validators()
+	if err != nil {
+		return false
+	}
+	n, _ := vals.ValidatorCount()
+	for _, e := range []uint64{w.epochOf(slot), w.epochOf(slot) + 1} {
+		active := 0
+		for i := uint64(0); i < n; i++ {
+			v, _ := vals.Validator(common.ValidatorIndex(i))
+			a, _ := v.ActivationEpoch()
+			x, _ := v.ExitEpoch()
+			if uint64(a) <= e && e < uint64(x) {
+				active++
+			}
+		}
+		if active == 0 {
+			return true
+		}
+	}
+	return false
 }
 
 // probes: "this rare condition was reached" counters, taken on the head state at epoch starts
